@@ -37,6 +37,8 @@ def setup():
     for name in [m for m in sys.modules if m == 'cardutil' or m.startswith('cardutil.')]:
         del sys.modules[name]
     warnings.filterwarnings('ignore')
+    if sys.flags.bytes_warning >= 2:
+        warnings.filterwarnings('error', category=BytesWarning)      # a shard started with -bb means it
     logging.disable(logging.CRITICAL)
     import cardutil
     where = os.path.abspath(cardutil.__file__)
